@@ -8,6 +8,6 @@ CONSTANTS
   Focus = "all"
   Quirks = TRUE
   EnvCap = 8
-  RetTypes <- MC_RetQuick
+  RetTypes <- MC_RetQuirks
 INVARIANTS Emit
 CHECK_DEADLOCK FALSE
